@@ -96,3 +96,263 @@ def vfs_overlay():
         shutil.copyfile(T("overlay", "verifvfs", name), cp)
         repl[os.path.join(core.REPO, dst)] = cp
     return repl, used
+
+
+# ---------------------------------------------------------------- variant of the tree under test (pending repairs F5 / F7)
+
+def driver_variant():
+    """which form of the empty-repository removal the tree under test has: read off internal/store/dir.go"""
+    with open(os.path.join(core.REPO, "internal", "store", "dir.go")) as f:
+        src = f.read()
+    i = src.find("prune an empty repo dir")
+    j = src.find("finished GC", i)
+    blk = src[i:j] if i >= 0 and j > i else ""
+    args = []
+    if re.search(r"errs = append\(errs, err\)\s*(//[^\n]*\n\s*)*break", blk):
+        args.append("stop")
+    if "ReadDir" in blk:
+        args.append("readdir")
+    return args
+
+
+# ---------------------------------------------------------------- profile
+
+_RE_TAG = re.compile(r" ![a-z]+")
+
+
+def view(op, ans):
+    """the compared part of an answer: the list of calls without the outcome marks (`!noent`, `!notempty`, `!err`)"""
+    if "fsops=?" in ans:
+        return None
+    return _RE_TAG.sub("", ans)
+
+
+class CrashProfile(Profile):
+    """harness: reg_vfs in crash / crashreplay mode; model: fsdriver on the annotated request lines (VERIF_FACTS)"""
+
+    def __init__(self, binary, driver_args, jobs=1, extra_env=None):
+        super().__init__("crash", None, "fsdriver", driver_args, view=view, start="NEW")
+        self.binary, self.jobs, self.extra_env = binary, jobs, dict(extra_env or {})
+        self.stats = []
+
+    def paths(self, tag):
+        p = super().paths(tag)
+        d = os.path.dirname(p["ops"])
+        p["facts"], p["stats"], p["dir"] = os.path.join(d, "facts"), os.path.join(d, "stats"), d
+        return p
+
+    def _env(self, p, mode, params, suffix=""):
+        e = dict(core.GOENV)
+        e.update({"VERIF_MODE": mode, "VERIF_OPS": p["ops"] + suffix, "VERIF_IMPL": p["impl"] + suffix, "VERIF_MON": p["mon"] + suffix,
+                  "VERIF_FACTS": p["facts"] + suffix, "VERIF_STATS": p["stats"] + suffix,
+                  "VERIF_WORK": os.path.join(W, "work")})
+        e.update({k: str(v) for k, v in self.extra_env.items()})
+        e.update({k: str(v) for k, v in params.items()})
+        return e
+
+    def _model(self, p):
+        okd, err = core.run_driver(self.driver, p["facts"], p["model"], self.driver_args)
+        if not okd:
+            raise RuntimeError("driver %s failed: %s" % (self.driver, err[-2000:]))
+
+    def generate(self, mode, params, tag="gen"):
+        """VERIF_N histories, split over self.jobs processes (seed of job j: VERIF_SEED*1000+j); the streams are concatenated"""
+        p = self.paths(tag)
+        os.makedirs(os.path.join(W, "work"), exist_ok=True)
+        n = int(params.get("VERIF_N", 1))
+        jobs = max(1, min(self.jobs, n))
+        procs = []
+        for j in range(jobs):
+            pj = dict(params)
+            pj["VERIF_N"] = n // jobs + (1 if j < n % jobs else 0)
+            pj["VERIF_SEED"] = int(params.get("VERIF_SEED", 1)) * 1000 + j
+            procs.append(subprocess.Popen([self.binary], env=self._env(p, mode, pj, ".%d" % j), stdout=subprocess.PIPE, stderr=subprocess.STDOUT, text=True))
+        outs = [pr.communicate(timeout=6000)[0] for pr in procs]
+        for pr, out in zip(procs, outs):
+            if pr.returncode != 0:
+                raise RuntimeError("harness reg_vfs failed (%d): %s" % (pr.returncode, out[-3000:]))
+        offset = 0
+        with open(p["ops"], "w") as fo, open(p["impl"], "w") as fi, open(p["facts"], "w") as ff, open(p["mon"], "w") as fm:
+            for j in range(jobs):
+                sfx = ".%d" % j
+                ops = core.read_lines(p["ops"] + sfx)
+                fo.write("".join(l + "\n" for l in ops))
+                fi.write(open(p["impl"] + sfx).read())
+                ff.write(open(p["facts"] + sfx).read())
+                for (ln, name, detail) in mon_parse(core.read_lines(p["mon"] + sfx)):
+                    fm.write("MON %d %s %s\n" % (ln + offset, name, detail))
+                offset += len(ops)
+                if os.path.exists(p["stats"] + sfx):
+                    self.stats.append(json.load(open(p["stats"] + sfx)))
+                for k in ("ops", "impl", "facts", "mon", "stats"):
+                    if os.path.exists(p[k] + sfx):
+                        os.remove(p[k] + sfx)
+        self._model(p)
+        return p
+
+    def replay(self, ops_lines, tag="replay"):
+        p = self.paths(tag)
+        os.makedirs(os.path.join(W, "work"), exist_ok=True)
+        with open(p["ops"], "w") as f:
+            f.write("\n".join(ops_lines) + "\n")
+        pr = core.sh([self.binary], env=self._env(p, "crashreplay", {}), check=False, timeout=3000)
+        if pr.returncode != 0:
+            return None, None, ["HARNESS-FAILED " + pr.stdout[-500:]]
+        if os.path.exists(p["stats"]) and tag == "corpus":
+            self.stats.append(json.load(open(p["stats"])))
+        try:
+            self._model(p)
+            model = core.read_lines(p["model"])
+        except RuntimeError:
+            model = []
+        return core.read_lines(p["impl"]), model, core.read_lines(p["mon"]) if os.path.exists(p["mon"]) else []
+
+
+def build_vfs(o):
+    key = ("b", "reg_vfs")
+    if key not in Built.cache:
+        try:
+            repl, used = vfs_overlay()
+        except RuntimeError as e:
+            Built.cache[key] = (None, str(e), [])
+        else:
+            b, out = core.go_build("reg", tags="verif,vfs", overlay=repl, out_name="reg_vfs")
+            Built.cache[key] = (b, out, used)
+    b, out, used = Built.cache[key]
+    if b is None:
+        o.violation("crash harness (FS shim overlay) does not build against the tree under test: %s" % out[-1500:],
+                    {"kind": "build", "output": out[-4000:]}, no_input=True)
+    return b, used
+
+
+def crash_profile(o, jobs=1, extra_env=None):
+    b, used = build_vfs(o)
+    if b is None or not Built.driver(o, "fsdriver"):
+        return None
+    return CrashProfile(b, driver_variant(), jobs=jobs, extra_env=extra_env)
+
+
+class MonitorSet:
+    def __init__(self, prefix):
+        self.prefix = prefix
+
+    def __contains__(self, name):
+        return name.startswith(self.prefix)
+
+
+def keep_line(l):
+    return l.startswith("NEW") or l.startswith("DEF")
+
+
+def check_crash_profile(o, prof, params, label, known):
+    """like inpkg.check_profile, except that a monitor hit whose name (with its cause suffix) is an open known finding
+    is reported as such without shrinking the history again - the minimal witness is the corpus file"""
+    from .inpkg import history_of
+    p = prof.generate("crash", params, tag=label)
+    ops, impl, model = core.read_lines(p["ops"]), core.read_lines(p["impl"]), core.read_lines(p["model"])
+    mon = [m for m in mon_parse(core.read_lines(p["mon"])) if m[1].startswith("C09.")]
+    o.cov["evaluations"] += len(ops)
+    distinct = set()
+    for a, b in zip(ops, impl):
+        if "fsops=[]" not in b and a.split(" ", 1)[0] not in ("NEW", "DEF"):
+            distinct.add((a.split(" ", 1)[0], view(a, b)))
+    o.cov["distinct_nontrivial"] += len(distinct)
+    import collections
+    o.notes.setdefault("profiles", {})[label] = {
+        "params": {k: str(v) for k, v in params.items()}, "request_lines": len(ops),
+        "histories": sum(1 for l in ops if l.startswith("NEW")), "op_mix": dict(collections.Counter(l.split(" ", 1)[0] for l in ops)),
+        "distinct_kind_trace_pairs": len(distinct), "monitor_hits": dict(collections.Counter(m[1] for m in mon))}
+    if len(o.cov["samples"]) < 12:
+        idx = [i for i, b in enumerate(impl) if "fsops=[]" not in b and not ops[i].startswith(("NEW", "DEF"))][:4]
+        o.cov["samples"].append({"profile": label, "requests": [ops[i] for i in idx], "implementation": [impl[i] for i in idx],
+                                 "model": [model[i] if i < len(model) else "" for i in idx]})
+    reported = 0
+    diffs = core.first_diffs(ops, impl, model, prof.view)
+    if diffs:
+        i, op, a, b = diffs[0]
+        hist = history_of(ops, min(i, len(ops) - 1), prof.start)
+
+        def still_differs(sub):
+            im, mo, _ = prof.replay(sub, tag="shrink")
+            return im is not None and bool(core.first_diffs(sub, im, mo, prof.view, limit=1))
+        shrunk = core.ddmin(hist, still_differs, keep_line) if len(hist) < 200 else hist
+        im, mo, mn = prof.replay(shrunk, tag="shrunk")
+        o.violation("FS-operation trace of the code differs from the model's op list (%s): %s | code: %s | model: %s" % (label, op, a, b),
+                    {"kind": "correspondence", "profile": label, "ops": shrunk, "implementation": im, "model": mo, "monitors": mn,
+                     "first_diff": {"line": i, "request": op, "implementation": a, "model": b},
+                     "unchecked": "trace correspondence '%s' (reg_vfs vs lean driver fsdriver)" % label,
+                     "replay_cmd": "bin/check C09 --replay <this file>"}, no_input=True)
+        reported += 1
+    seen = set()
+    for (ln, name, detail) in mon:
+        if name in seen:
+            continue
+        seen.add(name)
+        text = known(name, None, detail)
+        if text:
+            o.known_finding(text)
+            continue
+        if reported >= 3:
+            continue
+        hist = history_of(ops, ln - 1, prof.start)
+
+        def still_fires(sub, name=name):
+            _, _, mn = prof.replay(sub, tag="shrink")
+            return any(m[1] == name for m in mon_parse(mn or []))
+        shrunk = core.ddmin(hist, still_fires, keep_line) if len(hist) < 200 else hist
+        im, mo, mn = prof.replay(shrunk, tag="shrunk")
+        o.violation("monitor %s fails on the implementation: %s" % (name, detail),
+                    {"kind": "monitor", "profile": label, "monitor": name, "detail": detail, "ops": shrunk, "implementation": im, "model": mo,
+                     "monitors": mn, "replay_cmd": "bin/check C09 --replay <this file>"})
+        reported += 1
+
+
+RULE = ("crash-point enumeration on the directory store: generated histories (profiles refs, tags, mix, upload and their collection-heavy "
+        "variants gcrefs, gctags; 8-12 generator steps each with `GC r` lines inserted, every random choice from VERIF_SEED) run on the real "
+        "Server.ServeHTTP built with the FS-shim overlay (package os replaced in internal/store/dir.go).  For every request the shim copies the "
+        "directory before each mutating call and inside each write (after half of the bytes; thorough: after 1, half and all but one); a fresh "
+        "olareg.New is opened on every distinct copy and the monitors load-error, blob-torn, tag-dangling, ack-lost, not-atomic are evaluated "
+        "against fresh servers on the directory before and after the request.  evaluations = request lines whose recorded trace of mutating FS "
+        "calls was compared with the op list the Lean model (fsdriver) prints from the same facts; distinct_nontrivial = distinct (request kind, "
+        "non-empty canonical trace) pairs")
+
+
+def check_C09(o, tier):
+    o.add_audit(core.audit("C09", tier == "thorough"))
+    o.cov["rule"] = RULE
+    thorough = tier == "thorough"
+    prof = crash_profile(o, jobs=8 if thorough else 6, extra_env={"VERIF_CUTS": "3"} if thorough else None)
+    if prof is None:
+        return
+    _, used = build_vfs(o)
+    o.add_obligation(bool(used), "every name of package os used by internal/store/dir.go has a stand-in in the FS shim (%s)" % ", ".join(used))
+    o.notes["driver_variant"] = prof.driver_args or ["as-is"]
+    known = known_from_file("C09")
+    mons = MonitorSet("C09.")
+    check_corpus(o, prof, "C09", mons, known)
+    plan = [("refs", 18, 8), ("gcrefs", 16, 8), ("tags", 14, 8), ("gctags", 14, 8), ("mix", 16, 10), ("upload", 12, 10)]
+    if thorough:
+        plan = [(pr, 25 * n, st) for pr, n, st in plan]
+    t0 = time.time()
+    for pr, n, steps in plan:
+        check_crash_profile(o, prof, {"VERIF_SEED": o.seed, "VERIF_N": n, "VERIF_PROFILE": pr, "VERIF_STEPS": steps}, "crash-" + pr, known)
+    tot = {}
+    for s in prof.stats:
+        for k, v in s.items():
+            if isinstance(v, dict):
+                d = tot.setdefault(k, {})
+                for kk, vv in v.items():
+                    d[kk] = d.get(kk, 0) + vv
+            else:
+                tot[k] = tot.get(k, 0) + v
+    o.notes["crash"] = tot
+    o.notes["crash_wall_s"] = round(time.time() - t0, 1)
+    o.assumptions += ["process-crash model: what is on disk at the crash point is what the restarted server finds; loss of un-synced pages (power failure) is outside the claim",
+                      "kernel semantics assumed, not modelled: rename is atomic, a write leaves a prefix of its bytes, CreateTemp returns an unused name",
+                      "a collection is read as a sequence of independent removals: interrupted half way, every retained item must be intact (not: all or nothing)",
+                      "a mount attempt (UPOST mount=&from=) is crash-tested by the monitors but its trace is not compared with the model"]
+    prof.cleanup()
+
+
+CHECKS = {"C09": check_C09}
+PROFILES = {"crash": crash_profile}
